@@ -1607,6 +1607,7 @@ class Message(ABC):
                         output[cased_name] = value
                 elif (
                     value._serialized_on_wire
+                    or bool(value)
                     or include_default_values
                     or meta.optional
                     or self._include_default_value_for_oneof(
@@ -1950,6 +1951,7 @@ class Message(ABC):
                         output[cased_name] = None
                 elif (
                     value._serialized_on_wire
+                    or bool(value)
                     or include_default_values
                     or meta.optional
                     or self._include_default_value_for_oneof(
